@@ -1070,3 +1070,104 @@ def c20(rec):
 def _with(interp, fn):
     with interp:
         return fn()
+
+
+# ---------------------------------------------------------------------------
+# C06, op catalogue: find_domain vs the typing rule vs the array implementation
+
+def _op_instance(op):
+    from funsor import ops as fops
+    n, p = op["n"], op["p"]
+    red = {"sum": fops.SumOp, "prod": fops.ProdOp, "amax": fops.AmaxOp, "amin": fops.AminOp,
+           "logsumexp": fops.LogsumexpOp, "all": fops.AllOp, "any": fops.AnyOp}
+    if n in red:
+        return red[n](None if p[0] == fbuild.NOAXIS else p[0], bool(p[1]))
+    if n == "getslice":
+        return fops.GetsliceOp(fbuild.py_index(p))
+    if n == "reshape":
+        return fops.ReshapeOp(tuple(p))
+    if n == "getitem":
+        return fops.GetitemOp(p[0])
+    table = {"neg": fops.neg, "abs": fops.abs, "exp": fops.exp, "log": fops.log, "add": fops.add, "sub": fops.sub,
+             "mul": fops.mul, "max": fops.max, "min": fops.min, "lt": fops.lt, "ge": fops.ge, "eq": fops.eq,
+             "and": fops.and_, "or": fops.or_, "floordiv": fops.floordiv, "mod": fops.mod, "matmul": fops.matmul}
+    return table[n]
+
+
+def _np_arg(a, dt):
+    from . import vals
+    x = vals.arr_to_np(a)
+    if dt == 0:
+        return x
+    return x.astype(np.int64)      # bounded integers (Bint[2] included) as integer arrays
+
+
+def c06ops(rec):
+    """C06 (catalogue): funsor.domains.find_domain(op, *domains) equals the typing rule TLC
+    evaluated, and the array implementation returns exactly that shape, values equal to the
+    exact result and (bounded integers) inside the declared range."""
+    from funsor.domains import find_domain
+    from . import vals
+    c = rec["case"]
+    sig = "%s%s %s/%s" % (c["op"]["n"], c["op"]["p"], c["sh"], c.get("sh2", ""))
+    out = []
+    try:
+        op = _op_instance(c["op"])
+    except Exception as e:  # noqa
+        return [_verdict("C06", "declined_error", "op_instance:" + type(e).__name__, str(e)[:80], sig=sig)]
+    doms = [fbuild.dom_of({"dt": c["dt"], "sh": c["sh"]})]
+    args = [_np_arg(rec["a"], c["dt"])]
+    if c["kind"] == "bin":
+        doms.append(fbuild.dom_of({"dt": c["dt2"], "sh": c["sh2"]}))
+        args.append(_np_arg(rec["b"], c["dt2"]))
+    elif c["kind"] == "getitem":
+        doms.append(fbuild.dom_of({"dt": c["sh"][c["op"]["p"][0]], "sh": []}))
+        args.append(int(vals.scalar_to_float(rec["b"]["v"][0])))
+    # static rule
+    try:
+        d = find_domain(op, *doms)
+        got = fbuild.dom_to_spec(d)
+        want = rec["dom"]
+        if got is None or got["sh"] != want["sh"]:
+            out.append(_verdict("C06", "mismatch", "find_domain_shape", {"got": str(d), "want": want}, sig=sig))
+        elif got["dt"] != want["dt"]:
+            # the typing rule of the specification is the sound bound; funsor may declare another
+            # dtype only if the computed values still fit it (checked below)
+            out.append(_verdict("C06", "agree" if rec["defined"] and _fits(rec["res"], got) else "mismatch",
+                                "find_domain_dtype", {"got": str(d), "want": want}, sig=sig))
+        else:
+            out.append(_verdict("C06", "agree", sig=sig))
+    except NotImplementedError:
+        d = None
+        out.append(_verdict("C06", "declined_error", "find_domain:NotImplementedError", sig=sig))
+    except Exception as e:  # noqa
+        d = None
+        out.append(_verdict("C06", "declined_error", "find_domain:" + type(e).__name__, str(e)[:80], sig=sig))
+    # array implementation
+    if rec["defined"]:
+        try:
+            if c["kind"] == "getitem":
+                r = op(args[0], args[1])
+            else:
+                r = op(*args)
+            want = vals.arr_to_np(rec["res"])
+            r = np.asarray(r)
+            if tuple(r.shape) != tuple(want.shape):
+                out.append(_verdict("C06", "mismatch", "array_shape", {"got": list(r.shape), "want": list(want.shape)}, sig=sig))
+            elif not vals.close(r.astype(np.float64), want):
+                out.append(_verdict("C06", "mismatch", "array_value", {"got": r.astype(float).tolist(), "want": want.tolist()}, sig=sig))
+            elif d is not None and isinstance(d.dtype, int) and r.size and r.dtype != bool and (r.min() < 0 or r.max() >= d.dtype):
+                out.append(_verdict("C06", "mismatch", "array_out_of_declared_range", {"declared": str(d), "min": float(r.min()), "max": float(r.max())}, sig=sig))
+            else:
+                out.append(_verdict("C06", "agree", sig=sig))
+        except Exception as e:  # noqa
+            out.append(_verdict("C06", "declined_error", "array:" + type(e).__name__, str(e)[:80], sig=sig))
+    return out
+
+
+def _fits(res, dom):
+    from . import vals
+    x = vals.arr_to_np(res)
+    if dom["dt"] == 0:
+        return True
+    return bool(x.size == 0 or (x.min() >= 0 and x.max() < dom["dt"]))
